@@ -126,6 +126,9 @@ func main() {
 	run.Floor("in_rate_requests_after_a_refused_burst", 8)
 	run.Units("huge", run.Pick(36, 360), 0, func(unit int64, r *rand.Rand) { hugeSizes(run, unit, r, dir) })
 	run.Units("limit", run.Pick(24, 200), 8, func(unit int64, r *rand.Rand) { limiter(run, unit, r, dir) })
+	// a store written under an earlier witness key list, the service restarted on it with the current keys
+	run.Floor("rotated_key_requests", 200)
+	run.Units("rotated", run.Pick(30, 300), 0, func(unit int64, r *rand.Rand) { rotated(run, unit, r, dir) })
 }
 
 // target is what a request sequence is driven against: the in-process handler or the
